@@ -578,6 +578,17 @@ func (e *Exec) runDefers(st *State, k func(*State) []Outcome) []Outcome {
 	}
 	d := fr.Defers[len(fr.Defers)-1]
 	fr.Defers = fr.Defers[:len(fr.Defers)-1]
+	if os.Getenv("VERIF_DEBUG_DEFER") != "" {
+		if f, ok := d.Fn.(*Func); ok && f != nil && f.Fn != nil {
+			fmt.Fprintf(os.Stderr, "runDefers in %s: calling %s (panicking=%v, remaining=%d)\n", fr.Fn.Name(), f.Fn.Name(), st.Panicking != nil, len(fr.Defers))
+		}
+	}
+	// the panic in flight is parked on the frame while the deferred call runs (the deferred function itself
+	// executes normally; recover() called directly by it picks the parked panic up)
+	if st.Panicking != nil {
+		fr.Pending = st.Panicking
+		st.Panicking = nil
+	}
 	depth := len(st.Frames)
 	outs := e.callValue(st, d.Fn, d.Args, true, "defer")
 	var res []Outcome
@@ -585,6 +596,12 @@ func (e *Exec) runDefers(st *State, k func(*State) []Outcome) []Outcome {
 		if len(o.st.Frames) != depth {
 			fail("frame depth mismatch after deferred call")
 		}
+		ofr := o.st.Top()
+		if o.st.Panicking == nil && ofr.Pending != nil {
+			// not recovered and no new panic: the original panic continues
+			o.st.Panicking = ofr.Pending
+		}
+		ofr.Pending = nil
 		res = append(res, e.runDefers(o.st, k)...)
 	}
 	return res
@@ -806,6 +823,9 @@ func (e *Exec) pos(p token.Pos) string {
 }
 
 func (e *Exec) addOblig(o *Obligation) {
+	if d := os.Getenv("VERIF_DEBUG_OBL"); d != "" && strings.Contains(o.ID, d) {
+		fmt.Fprintf(os.Stderr, "OBL %s @%s\n  PC: %s\n  COND: %s\n", o.ID, o.Site, o.PC.str(12), o.Cond.str(12))
+	}
 	o.Harness = e.harness
 	e.obligs = append(e.obligs, o)
 }
